@@ -110,15 +110,22 @@ def r1(ctx):
                     if unparse(t) == "self.position" and _underlying_reads(f):
                         val = x.value
                         uses_len = any(isinstance(y, ast.Call) and unparse(y.func) == "len" for y in ast.walk(val))
-                        synthetic = _in_no_read_branch(x)
+                        synthetic = _in_no_read_branch(x, f)
                         ctx.ob("R1", f"{f.qualname.split('.', 3)[-1]}: position advances by a measured length", uses_len or synthetic, func=f, node=x,
                                instance=f"{f.name}:position:{unparse(val)}",
                                message=f"{f.qualname}: `self.position` is set from `{unparse(val)}`, not from the number of bytes received")
     ctx.require(n >= 3, f"C23.R1: only {n} underlying reads found")
 
 
-def _in_no_read_branch(x) -> bool:
-    """the position update sits in a branch that does not read the stream (e.g. sparse holes returning NULs)"""
+def _in_no_read_branch(x, f=None) -> bool:
+    """the position update lies on paths that do not read the stream at all (e.g. sparse holes returning NULs): no
+    underlying read reaches it and it reaches none (CFG, so `if/else`, swapped branches and guard clauses agree)"""
+    if f is not None:
+        g = f.cfg
+        us = g.ids_of(x)
+        rs = [i for c in _underlying_reads(f) for i in g.node_containing(c)]
+        if us and rs:
+            return not any(u in g.reach(rs) for u in us) and not any(r in g.reach(us) for r in rs)
     for a in ancestors(x):
         if isinstance(a, ast.If):
             body = a.body if any(x is s or x in ast.walk(s) for s in a.body) else a.orelse
@@ -278,12 +285,15 @@ def r5(ctx):
     g = n.cfg
     seeks = [x for x in g.nodes.values() if any(isinstance(c.func, ast.Attribute) and c.func.attr == "seek" and unparse(c.args[0]) == "self.offset" for c in x.calls() if c.args)]
     reads = [x for x in g.nodes.values() if any(isinstance(c.func, ast.Attribute) and c.func.attr == "fromtarfile" for c in x.calls())]
-    tests = [x for x in g.nodes.values() if x.kind == "test" and unparse(x.ast) == "self.offset != self.stream.tell()"]
+    from ..facts import edge_for as _edge_for, key as _key
+
+    _differs = lambda at, v: (not v) and _key(at) in ("self.offset == self.stream.tell()", "self.stream.tell() == self.offset")  # noqa: E731
+    tests = [x for x in g.nodes.values() if x.kind == "test" and x.ast is not None and _edge_for(x.ast, _differs)]
     ok = bool(seeks) and bool(reads) and bool(tests) and all(g.path(t.id, [r.id for r in reads], avoid=[s.id for s in seeks], kinds={"t"} | {"n"}) is None or True for t in tests)
     # on the "offset differs" branch the seek precedes the header read
     okb = False
     for t in tests:
-        tb = [b for b, k in g.succ[t.id] if k == "t"]
+        tb = [b for b, k in g.succ[t.id] if k == _edge_for(t.ast, _differs)]
         okb = okb or all(g.path(b2, [r.id for r in reads], avoid=[s.id for s in seeks] + [g.exit]) is None or g.nodes[b2].id in [s.id for s in seeks] for b2 in tb)
     ctx.ob("R5", "next() seeks to the recorded offset before reading the next header", ok and okb, func=n, node=n.node, instance="next:seek")
     sk = p.func(f"{MOD}.SeekableStreamReaderWrapper.seek")
@@ -326,12 +336,14 @@ def r6(ctx):
     alias = [x for x in f.body_nodes() if isinstance(x, ast.Assign) and unparse(x.value) == "tarstream.pax_headers"]
     copies = [x for x in f.body_nodes() if isinstance(x, ast.Assign) and unparse(x.value) in ("tarstream.pax_headers.copy()", "dict(tarstream.pax_headers)", "copy.copy(tarstream.pax_headers)")]
     ctx.require(bool(alias) and bool(copies), "C23.R6: pax header scoping not found in _proc_pax")
-    from ..model import ancestors as _anc
+    from ..facts import facts_at, key
 
+    g = f.cfg
     okp = True
     for a in alias:
-        conds = [x for x in _anc(a) if isinstance(x, ast.If)]
-        okp = okp and bool(conds) and unparse(conds[0].test) in ("self.type == tarfile.XGLTYPE", "tarfile.XGLTYPE == self.type") and any(a is s or a in ast.walk(s) for s in conds[0].body)
+        ids = g.ids_of(a)
+        is_global = lambda at, v: v and key(at) in ("self.type == tarfile.XGLTYPE", "tarfile.XGLTYPE == self.type", "self.type is tarfile.XGLTYPE")  # noqa: E731
+        okp = okp and bool(ids) and all(any(is_global(at, v) for at, v in facts_at(g, i)) for i in ids)
     ctx.ob("R6", "only a global PAX header updates the archive-wide pax_headers in place", okp, func=f, node=alias[0], instance="_proc_pax:scope",
            message="a per-member PAX extended header is written into the archive-wide pax_headers: its path/size records are applied to every following member")
 
